@@ -170,7 +170,7 @@ def extract(repo, scope):
         return fdir, {'cached': False, 'tree_hash': th, 'files_hashed': nfiles, 'extract_wall_s': round(time.time() - t0, 1)}
 
 
-def prune_fact_cache(keep, maxn=12):
+def prune_fact_cache(keep, maxn=60):
     base = os.path.join(CACHE, 'facts')
     ds = [os.path.join(base, d) for d in os.listdir(base)]
     ds = [d for d in ds if os.path.isdir(d) and d != keep]
